@@ -41,6 +41,46 @@ func runC03(r *Run, p *Prog) {
 	siblingRules(r, p, "C17", []string{"D1", "D2", "D3", "D6"}, "P11")
 	// P12: what the handler reads is what the client passed only if nothing rewrites the encoded frame between the encoder and the write
 	siblingRules(r, p, "C02", []string{"F1"}, "P12")
+	// P13: what the client hands back is what this reply carried only if every reply is decoded into a fresh value
+	siblingRules(r, p, "C11", []string{"N4"}, "P13")
+	// P14: the write path sends the reply it was handed: no function that takes a reply object as a parameter and
+	// reaches the connection write assigns a member of it (dropping an "empty" parameters value, rewriting the name)
+	r.Guard("P14", func() {
+		ro0 := DiscoverRoles(p)
+		n := 0
+		for _, f := range p.FuncsOf(pkgVarlink) {
+			if !ro0.keepsWriting(f) {
+				continue
+			}
+			for _, prm := range f.Params {
+				pt, ok := prm.Type().(*types.Pointer)
+				if !ok || replyF.Type == nil || !types.Identical(pt.Elem(), replyF.Type) {
+					continue
+				}
+				n++
+				var bad ssa.Instruction
+				for _, ref := range *prm.Referrers() {
+					if fa, isFA := ref.(*ssa.FieldAddr); isFA {
+						for _, st := range storesTo(fa) {
+							bad = st
+						}
+					}
+					if st, isSt := ref.(*ssa.Store); isSt && st.Addr == ssa.Value(prm) {
+						bad = st
+					}
+				}
+				pos := f.Pos()
+				if bad != nil {
+					pos = bad.Pos()
+				}
+				r.Ob("P14", shortName(f), "the write path leaves the reply it was handed unchanged", pos, bad == nil,
+					"a function of the write path assigns a member of the reply object it was given: what goes out is not what the handler replied")
+			}
+		}
+		if n == 0 {
+			r.Unresolved("P14", "write-path function taking the reply object")
+		}
+	})
 	ro := DiscoverRoles(p)
 	T := ro.T
 	cm := buildClientModel(p, ro)
